@@ -44,7 +44,7 @@ impl Check for C05 {
     fn runs(&self, tier: Tier) -> u64 {
         match tier {
             Tier::Quick => 800,
-            Tier::Thorough => 12000,
+            Tier::Thorough => 3200,
         }
     }
     fn generate(&self, rng: &mut Prng, tier: Tier, idx: u64) -> Value {
